@@ -290,20 +290,37 @@ def run(ctx):
 
     # ---- R10.6
     sS_stmts = ptab.get(ord("S"), [])
-    plain_if = [x for s_ in sS_stmts for x in A.walk(s_) if x.get("kind") == "IfStmt" and A.strip_casts(A.kids(x)[0]).get("kind") == "BinaryOperator" and
-                A.strip_casts(A.kids(x)[0]).get("opcode") == "==" and A.int_literal(A.kids(A.strip_casts(A.kids(x)[0]))[1]) == ord("S") and
-                any(y.get("kind") == "DeclRefExpr" and (y.get("referencedDecl") or {}).get("name") == "plain" for y in A.walk(x))]
-    ctx.require(len(plain_if) >= 1, "R10.6: the printer's bare-symbol decision was not found")
-    pif = plain_if[0]
-    plain_id = [y["referencedDecl"]["id"] for y in A.walk(pif) if y.get("kind") == "DeclRefExpr" and (y.get("referencedDecl") or {}).get("name") == "plain"][0]
+    # the decision variable: the bool local of the 's'/'S' case; the statements that compute it: its declaration (with
+    # initialiser) up to the last statement that assigns it - wherever the test itself lives (inline, or in a helper)
+    flatS = []
+    for s_ in sS_stmts:
+        flatS += A.kids(s_) if s_.get("kind") == "CompoundStmt" else [s_]
+    bools = [(i, d) for i, s_ in enumerate(flatS) if s_.get("kind") == "DeclStmt" for d in A.kids(s_)
+             if d.get("kind") == "VarDecl" and FD.ctype(A.qtype(d)) == ("int", 1, False)]
+    ctx.require(len(bools) == 1, "R10.6: the printer's bare-symbol decision was not found")
+    di, pdecl = bools[0]
+    plain_id = pdecl["id"]
+    last = di
+    for i in range(di + 1, len(flatS)):
+        if any(y.get("kind") == "BinaryOperator" and y.get("opcode") == "=" and A.ref_id(A.kids(y)[0]) == plain_id for y in A.walk(flatS[i])):
+            last = i
+    decide = flatS[di:last + 1]
+    pif = decide[0]
     skid = u.function("skip_identifier")
     words = ["a", "_", "_a", "a1", "A_9", "abc", "1", "1a", "2nd", "808", "1e5", "2xfoo", "a-b", "a b", "", "x.y", "a/b", "MIDI", "BLOB", "_1"]
     kws = sorted(set(kc) | set(ks))
 
     def printer_plain(text):
         hook, deref = R.string_hooks(text, {"type": ord("S"), "s": R.BASE})
-        ev2 = FD.Eval(env={plain_id: 0}, node_hook=hook, deref=deref)
-        ev2.run(pif)
+
+        def call(name, vals, n):
+            fns = [f for f in u.functions.get(name, []) if u.body(f) is not None]
+            if len(fns) == 1:
+                return ev2.call_function(u, fns[0], vals)
+            raise FD.Unknown("call to %s in the bare-symbol decision" % name, n)
+        ev2 = FD.Eval(env={plain_id: 0}, node_hook=hook, deref=deref, call=call)
+        for st in decide:
+            ev2.run(st)
         return bool(ev2.env[plain_id])
 
     def reader_identifier(text):
